@@ -46,6 +46,10 @@ def run(ctx, chk):
     adjust_byte_frames(ctx, chk)
 
     tabs = {nt: fn_table(ctx, nt) for nt in ("byte_unary_arithmetic", "word_unary_arithmetic")}
+    chk.rule("C03.R11", "AX/DX after MUL, IMUL, DIV, IDIV are the manual's product / quotient / remainder as closed forms, for every operand", floor=8)
+    muldiv_value_rule(ctx, chk, tabs)
+    chk.rule("C03.R12", "CF = OF = the upper half of the product is significant (condition of the helper's flag branch as a closed form)", floor=4)
+    muldiv_flag_rule(ctx, chk, tabs)
     for nt in tabs:
         width = 8 if nt.startswith("byte") else 16
         wn = "byte" if width == 8 else "word"
@@ -381,3 +385,205 @@ def adjust_byte_frames(ctx, chk):
                     chk.violation("C03.R10", name, "al-ignores-input", f"AAD: AL' does not depend on AX bits {sorted(need - lo)}", where)
                 else:
                     chk.ok("C03.R10", "aad:al", "AL' depends on AH and AL")
+
+
+def muldiv_value_rule(ctx, chk, tabs):
+    """C03.R11.  AX / DX after MUL, IMUL, DIV, IDIV as closed forms over the incoming AX, DX and the operand.
+    Products, truncating quotients and remainders are *uninterpreted* binary bases of the affine domain (`x*y`, `x/y`,
+    `x%y` of two closed forms, products commutative), so the comparison with the manual is structural:
+        MUL  b: AX = AL*val                      w: AX = (AX*val) mod 2^16, DX = (AX*val) >> 16
+        IMUL b: AX = (sx8(AL)*sx8(val)) mod 2^16 w: with P = sx16(AX)*sx16(val): AX = P mod 2^16, DX = (P mod 2^32) >> 16
+        DIV  b: AL = AX/val, AH = AX%val         w: with N = DX*2^16+AX: AX = N/val, DX = N%val
+        IDIV the same on the sign-extended dividend and divisor, truncating toward zero
+    DIV/IDIV are analysed on their Ok paths only (paths that build `Err(..)` as the return value are not followed): there
+    the quotient is known to fit.  Equal forms: right for every operand.  Unequal forms are evaluated on a grid of boundary
+    operands, restricted for divisions to operands whose quotient exists and fits; a disagreement is a counterexample,
+    agreement on the grid is undecided."""
+    from domains import Lin, opaque, shr_lin
+    import itertools
+    P = ctx.program
+    ax, dx = Lin.atom("ax"), Lin.atom("dx")
+
+    def mulb(x, y):
+        return Lin(0, ((opaque("mul", x, y), 1),))
+
+    def divb(kind, x, y):
+        return Lin(0, ((opaque(kind, x, y), 1),))
+    for nt in ("byte_unary_arithmetic", "word_unary_arithmetic"):
+        w = 8 if nt.startswith("byte") else 16
+        for m in MULDIV:
+            fid = tabs[nt].get(m)
+            if fid is None or fid not in P.fns:
+                continue
+            fn = P.fns[fid]
+            unit = f"{m}.{'b' if w == 8 else 'w'}"
+            where = fn_where(fn)
+            try:
+                s = summarize_fn(ctx, fn, kill_ret_variant=1 if m in ("div", "idiv") else None)
+            except Unsupported as e:
+                chk.undecided_("C03.R11", unit, str(e))
+                continue
+            if s.st.dead:
+                chk.undecided_("C03.R11", unit, "no returning Ok path")
+                continue
+            v = Lin.atom(s.arg_names[0])
+            ranges = s.I.atom_ranges()
+            if w == 8:
+                al = ax.mod(256)
+                if m == "mul":
+                    want = {"ax": mulb(al, v)}
+                elif m == "imul":
+                    want = {"ax": mulb(ax.sx(8), v.sx(8)).mod(1 << 16)}
+                elif m == "div":
+                    want = {"ax": divb("div", ax, v).add(divb("rem", ax, v).scale(256))}
+                else:
+                    n, d = ax.sx(16), v.sx(8)
+                    want = {"ax": divb("div", n, d).mod(256).add(divb("rem", n, d).mod(256).scale(256))}
+                want["dx"] = dx
+            else:
+                if m == "mul":
+                    p = mulb(ax, v)
+                    want = {"ax": p.mod(1 << 16), "dx": shr_lin(p, 16)}
+                elif m == "imul":
+                    p = mulb(ax.sx(16), v.sx(16))
+                    want = {"ax": p.mod(1 << 16), "dx": shr_lin(p.mod(1 << 32), 16)}
+                elif m == "div":
+                    n = ax.add(dx.scale(1 << 16))
+                    want = {"ax": divb("div", n, v), "dx": divb("rem", n, v)}
+                else:
+                    n, d = ax.add(dx.scale(1 << 16)).sx(32), v.sx(16)
+                    want = {"ax": divb("div", n, d).mod(1 << 16), "dx": divb("rem", n, d).mod(1 << 16)}
+
+            def valid(env):
+                if m not in ("div", "idiv"):
+                    return True
+                vv = env.get(s.arg_names[0], 1)
+                if w == 8:
+                    n_, d_ = env.get("ax", 0), vv
+                    if m == "idiv":
+                        n_ = n_ - 65536 if n_ >= 32768 else n_
+                        d_ = d_ - 256 if d_ >= 128 else d_
+                else:
+                    n_, d_ = env.get("ax", 0) + 65536 * env.get("dx", 0), vv
+                    if m == "idiv":
+                        n_ = n_ - (1 << 32) if n_ >= (1 << 31) else n_
+                        d_ = d_ - 65536 if d_ >= 32768 else d_
+                if d_ == 0:
+                    return False
+                q = abs(n_) // abs(d_) * (1 if (n_ < 0) == (d_ < 0) else -1)
+                if m == "div":
+                    return q < (1 << w)
+                return -(1 << (w - 1)) <= q < (1 << (w - 1))
+            for reg in ("ax", "dx"):
+                got = s.regs[reg]
+                u = f"{unit}:{reg.upper()}"
+                if got.kind != "int" or got.aff is None:
+                    chk.undecided_("C03.R11", u, "the register has no closed form after the instruction")
+                    continue
+                have, wnt = got.aff.simplify(ranges), want[reg].simplify(ranges)
+                if have == wnt or have.mod(1 << 16) == wnt.mod(1 << 16):
+                    chk.ok("C03.R11", u, have.pretty())
+                    continue
+                atoms = sorted(have.atoms() | wnt.atoms())
+                cand = []
+                for at in atoms:
+                    lo, hi = ranges.get(at, (0, 0xFFFF))
+                    pts = {lo, hi, lo + 1, hi - 1, (lo + hi) // 2, (lo + hi) // 2 + 1, 2, 3, 7, 10, 100, 127, 128, 129, 255, 256, 257, 0x7FFF, 0x8000, 0x8001, 0xFF00, 0xFFFE}
+                    cand.append(sorted(p for p in pts if lo <= p <= hi))
+                wit = None
+                for vals in itertools.product(*cand):
+                    env = dict(zip(atoms, vals))
+                    if valid(env) and have.eval(env) % (1 << 16) != wnt.eval(env) % (1 << 16):
+                        wit = env
+                        break
+                if wit is None:
+                    chk.undecided_("C03.R11", u, f"{have.pretty()} not comparable with {wnt.pretty()}")
+                else:
+                    text = (f"{reg.upper()} after {m.upper()} is {have.pretty()}, the manual gives {wnt.pretty()}; e.g. " +
+                            ", ".join(f"{k}={hex(v_)}" for k, v_ in sorted(wit.items())) + f": {hex(have.eval(wit) % (1 << 16))} instead of {hex(wnt.eval(wit) % (1 << 16))}")
+                    chk.violation("C03.R11", unit, f"{reg}-value", f"{fn['name']}: {text}", where, witness=text)
+
+
+def muldiv_flag_rule(ctx, chk, tabs):
+    """C03.R12.  CF = OF = "the upper half of the product is significant" for MUL / IMUL.  The helpers set both flags on the
+    two sides of one hand-written branch; `branch_flag_conditions` finds that branch (the flag is set on one side,
+    cleared on the other, written nowhere else, on every path) and V gives the closed form of its condition.
+    MUL: the condition must be `upper half != 0`, compared structurally.  IMUL: the manual's condition is "the product is
+    not the sign extension of its lower half" (P outside [-2^(w-1), 2^(w-1)-1]); the helper's condition is evaluated
+    against it on a grid of boundary operands: a disagreement is a counterexample, agreement is undecided unless the
+    forms coincide."""
+    from domains import Lin, opaque, shr_lin
+    from insn import branch_flag_conditions
+    from rules_c01 import _norm_pred, _negate, _eval_pred, _pred_show, _pred_atoms
+    import itertools
+    P = ctx.program
+    ax = Lin.atom("ax")
+    for nt in ("byte_unary_arithmetic", "word_unary_arithmetic"):
+        w = 8 if nt.startswith("byte") else 16
+        for m in ("mul", "imul"):
+            fid = tabs[nt].get(m)
+            if fid is None or fid not in P.fns:
+                continue
+            fn = P.fns[fid]
+            unit = f"{m}.{'b' if w == 8 else 'w'}"
+            where = fn_where(fn)
+            try:
+                s = summarize_fn(ctx, fn, record_switch=True)
+            except Unsupported as e:
+                chk.undecided_("C03.R12", unit, str(e))
+                continue
+            conds = branch_flag_conditions(ctx, fn, s)
+            ranges = s.I.atom_ranges()
+            v = Lin.atom(s.arg_names[0])
+            a_ = ax.mod(256) if w == 8 else ax
+            if m == "mul":
+                p = Lin(0, ((opaque("mul", a_, v), 1),))
+                want = ("nonzero", shr_lin(p, w).simplify(ranges))
+
+                def spec(env, p=p):
+                    return (p.eval(env) >> w) != 0
+            else:
+                p = Lin(0, ((opaque("mul", ax.sx(w) if w == 16 else ax.sx(8), v.sx(w)), 1),))
+                want = None
+
+                def spec(env, p=p):
+                    x = p.eval(env)
+                    return not (-(1 << (w - 1)) <= x < (1 << (w - 1)))
+            for f in ("CF", "OF"):
+                u = f"{unit}:{f}"
+                if FBIT[f] not in conds:
+                    chk.undecided_("C03.R12", u, "the flag is not set and cleared on the two sides of one branch of the helper")
+                    continue
+                d, truth, arm = conds[FBIT[f]]
+                if arm is None:
+                    have = _norm_pred(d, ranges)
+                    if have is not None and not truth:
+                        have = _negate(have)
+                else:
+                    have = None
+                    if d.aff is not None:
+                        have = ("zero" if truth else "nonzero", d.aff.sub(Lin(arm)).simplify(ranges))
+                if have is None:
+                    chk.undecided_("C03.R12", u, "the branch condition has no closed form")
+                    continue
+                if want is not None and (have == want or repr(have) == repr(want)):
+                    chk.ok("C03.R12", u, _pred_show(have))
+                    continue
+                atoms = sorted(_pred_atoms(have) | p.atoms())
+                cand = []
+                for at in atoms:
+                    lo, hi = ranges.get(at, (0, 0xFFFF))
+                    pts = {lo, hi, lo + 1, hi - 1, 2, 3, 15, 16, 17, 127, 128, 129, 181, 182, 255, 256, 257, 0x7FFF, 0x8000, 0x8001, 0xFF00, 0xFF80, 0xFFFE}
+                    cand.append(sorted(q for q in pts if lo <= q <= hi))
+                wit = None
+                for vals in itertools.product(*cand):
+                    env = dict(zip(atoms, vals))
+                    if _eval_pred(have, env) != spec(env):
+                        wit = env
+                        break
+                if wit is None:
+                    chk.undecided_("C03.R12", u, f"[{_pred_show(have)}] agrees with the manual's condition on the grid of boundary operands; the forms differ")
+                else:
+                    text = (f"{f} after {m.upper()} is set iff [{_pred_show(have)}]; the manual sets it iff the upper half of the product is significant. For " +
+                            ", ".join(f"{k}={hex(v_)}" for k, v_ in sorted(wit.items())) + f" the helper gives {int(_eval_pred(have, wit))}, the manual {int(spec(wit))}")
+                    chk.violation("C03.R12", unit, f"{f}-condition", f"{fn['name']}: {text}", where, witness=text)
